@@ -301,13 +301,21 @@ func (e *evaluator) propOnFields(pf *carddav.PropFilter, fields []*vcard.Field) 
 	if !present {
 		return vF
 	}
-	var out vset
-	// Each single instance on its own: the Kleene or/and of per-instance
-	// values always equals one of them, so this covers the readings
-	// "first", "last", "any instance", "every instance".
-	for _, f := range inst {
-		f := f
-		out |= e.propOnChildren(pf, func(tm *carddav.TextMatch) vset { return e.text(tm, f.Value) })
+	// Reading "first": the first instance in card order stands for the
+	// property (what the statement's "the property value" says for a
+	// single-valued property, extended the obvious way).
+	first := inst[0]
+	out := e.propOnChildren(pf, func(tm *carddav.TextMatch) vset { return e.text(tm, first.Value) })
+	if len(inst) > 1 {
+		// Reading "any" (RFC 6352 section 10.5.1): the filter holds if some
+		// instance satisfies it. A verdict is demanded only where "first"
+		// and "any" agree: first matches -> true; no instance matches -> false.
+		anyInst := vF
+		for _, f := range inst {
+			f := f
+			anyInst = setBin(anyInst, e.propOnChildren(pf, func(tm *carddav.TextMatch) vset { return e.text(tm, f.Value) }), true)
+		}
+		out |= anyInst
 	}
 	if len(inst) > 1 {
 		e.why |= whyMulti
